@@ -52,6 +52,23 @@ def run(tier="quick"):
         for d, v in f.vardecls.items():
             if v.get("init") is not None and X.strip(v["init"]).get("rk") == "param" and v.get("tp"):
                 pb = d
+    cursors = {pb} if pb is not None else None
+    if pb is None:
+        # an index cursor: the input parameter is never re-pointed and an integer local indexes it in the outermost loop's test
+        sd = f.params[0]["d"]
+        repointed = any(x.get("k") in ("assign", "un") and x.get("ch") and X.strip(x["ch"][0]) is not None and X.strip(x["ch"][0]).get("d") == sd and
+                        (x.get("k") == "assign" or x.get("op") in ("++", "--", "&")) for x in walk(f.body))
+        outer = [n for n in walk(f.body) if n.get("k") in ("for", "while", "do") and n.get("cond") is not None]
+        outer = [lp for lp in outer if not any(lp is not o and any(y is lp for y in walk(o.get("body") or {})) for o in outer)]
+        if not repointed:
+            for lp in outer:
+                for x in walk(lp["cond"]):
+                    if x.get("k") == "index" and X.strip(x["ch"][0]).get("d") == sd:
+                        ix = X.strip(x["ch"][1])
+                        if ix.get("k") == "ref" and ix.get("rk") == "local" and not ix.get("tp") and pb is None:
+                            pb = ix["d"]
+                            cursors = nulcursor.Cursors({pb})
+                            cursors.index_base[pb] = sd
     if pb is None:
         raise facts.AnalysisBroken("input cursor of spifconf_shell_expand not identified")
     # variable offsets justified by a successful strncasecmp(name, cursor, l)
@@ -60,7 +77,8 @@ def run(tier="quick"):
         if X.callee_name(c) in ("strncasecmp", "strncmp") and len(c["ch"]) >= 4:
             a1 = X.strip(c["ch"][2])
             a2 = X.strip(c["ch"][3])
-            if a1.get("k") == "ref" and a1.get("d") == pb and a2.get("k") == "ref":
+            co_ = nulcursor.cursor_offset(c["ch"][2], cursors)
+            if co_ == (pb, 0) and a2.get("k") == "ref":
                 just_vars.add(a2["d"])
 
     def justified(n, state):
@@ -73,14 +91,18 @@ def run(tier="quick"):
         for anc in f.ancestors(n):
             if anc.get("k") in ("for", "while", "do") and child is anc.get("body"):
                 return False
-            if anc.get("k") == "if" and anc.get("else") is not None and any(y is child for y in [anc["else"]]) or (
-                    anc.get("k") == "if" and anc.get("else") is not None and any(y is n for y in walk(anc["else"]))):
-                if any(y.get("k") == "member" and y.get("n") == "name" for y in walk(anc["cond"])) and any(
-                        y.get("k") == "ref" and y.get("n") == "builtins" for y in walk(anc["cond"])):
-                    return True
+            if anc.get("k") == "if" and any(y.get("k") == "member" and y.get("n") == "name" for y in walk(anc["cond"])) and any(
+                    y.get("k") == "ref" and y.get("n") == "builtins" for y in walk(anc["cond"])):
+                # the arm on which the table entry the search stopped at has a name (a built-in matched), whichever way the
+                # test is written
+                inthen = any(y is n for y in walk(anc["then"]))
+                inelse = anc.get("else") is not None and any(y is n for y in walk(anc["else"]))
+                if inthen or inelse:
+                    if any(f_[0] == "nn" and "name" in str(f_[1]) for f_ in X.implied(anc["cond"], inthen)):
+                        return True
             child = anc
         return False
-    viol, nchecked = nulcursor.analyse(f, {pb}, entry_safe=0, justified=justified)
+    viol, nchecked = nulcursor.analyse(f, cursors, entry_safe=0, justified=justified)
     for n, kind, msg in viol:
         chk.ob("N1", f.name, "%s:%s" % (kind, canon(f, n)[:40]), False, loc=f.loc(n), detail="%s: %s" % (f.name, msg))
     if not viol:
@@ -94,19 +116,25 @@ def run(tier="quick"):
             src = X.strip(c["ch"][2])
             if src.get("k") == "ref" and src.get("rk") == "local":
                 nb = src["d"]
-    loops = [n for n in walk(f.body) if n.get("k") == "for" and n.get("inc") is not None and any(y.get("k") == "switch" for y in walk(n["body"]))]
+    # the main loop: the outermost loop whose body switches on the input byte; the output index: the integer local that
+    # indexes the stores into the result buffer inside it
+    loops = [n for n in walk(f.body) if n.get("k") in ("for", "while", "do") and n.get("body") is not None and any(y.get("k") == "switch" for y in walk(n["body"]))]
     loops = [lp for lp in loops if not any(lp is not o and any(y is lp for y in walk(o["body"])) for o in loops)]
     jd = None
-    if loops:
-        for x in walk(loops[0]["inc"]):
-            if x.get("k") == "un" and x.get("op") == "++":
-                t = X.strip(x["ch"][0])
-                if t.get("k") == "ref" and t.get("rk") == "local" and not t.get("tp"):
-                    jd = t["d"]
+    if loops and nb is not None:
+        cands = {}
+        for x in walk(loops[0]):
+            if x.get("k") == "assign" and x.get("op") == "=":
+                l = X.strip(x["ch"][0])
+                if l.get("k") == "index" and X.strip(l["ch"][0]).get("d") == nb:
+                    for y in walk(l["ch"][1]):
+                        if y.get("k") == "ref" and y.get("rk") == "local" and not y.get("tp"):
+                            cands[y["d"]] = cands.get(y["d"], 0) + 1
+        if cands:
+            jd = max(cands, key=lambda d: cands[d])
     if jd is None or nb is None or not loops:
         raise facts.AnalysisBroken("main loop of spifconf_shell_expand (output index over the result buffer) not identified")
     main = loops[0]
-    inc_ids = {x["i"] for x in walk(main["inc"])}
     delegated = []
 
     def is_nb_at_j(e):
@@ -115,15 +143,16 @@ def run(tier="quick"):
         if s.get("k") == "bin" and s.get("op") == "+":
             a, b = X.strip(s["ch"][0]), X.strip(s["ch"][1])
             return a.get("d") == nb and b.get("k") == "ref" and b.get("d") == jd
+        if s.get("k") == "un" and s.get("op") == "&":
+            t = X.strip(s["ch"][0])
+            if t.get("k") == "index":
+                a, b = X.strip(t["ch"][0]), X.strip(t["ch"][1])
+                return a.get("d") == nb and b.get("k") == "ref" and b.get("d") == jd
         return False
 
     def wr_transfer(state, n, blk):
         state = nullness.transfer(state, n, blk)
         k = n.get("k")
-        if n["i"] in inc_ids:
-            if k == "un" and n.get("op") == "++" and X.strip(n["ch"][0]).get("d") == jd:
-                return frozenset()       # next position: nothing written yet
-            return state
         if k == "assign" and n.get("op") == "=":
             l = X.strip(n["ch"][0])
             if l.get("k") == "index" and X.strip(l["ch"][0]).get("d") == nb:
@@ -158,7 +187,14 @@ def run(tier="quick"):
     ends = []
 
     def wr_visit(state, n, blk):
-        if n["i"] in inc_ids and n.get("k") == "un" and n.get("op") == "++" and X.strip(n["ch"][0]).get("d") == jd:
+        # every step of the output index to the next position (the loop's own increment, or one in the middle of an iteration
+        # that emits two bytes) leaves a written position behind; `newbuff[j++] = x` writes as it steps
+        if n.get("k") == "un" and n.get("op") == "++" and X.strip(n["ch"][0]).get("d") == jd and any(y is n for y in walk(main)):
+            par = f.parent.get(n["i"])
+            while par is not None and par.get("k") in ("paren", "icast", "cast"):
+                par = f.parent.get(par["i"])
+            if par is not None and par.get("k") == "index":
+                return
             ends.append((n, ("w",) in state, blk))
     flow.forward(cfg, frozenset({("w",)}), wr_transfer, refine=nullness.refine, visit=wr_visit)
     ok = bool(ends) and all(e[1] for e in ends)
@@ -175,6 +211,10 @@ def run(tier="quick"):
         for c in X.calls_in(g.body):
             if X.callee_name(c) == "spiftool_safe_strncpy" and len(c["ch"]) >= 4:
                 d0 = X.strip(c["ch"][1])
+                if d0.get("k") == "un" and d0.get("op") == "&" and X.strip(d0["ch"][0]).get("k") == "index":
+                    # &B[O] is B + O
+                    ix_ = X.strip(d0["ch"][0])
+                    d0 = {"k": "bin", "op": "+", "ch": [ix_["ch"][0], ix_["ch"][1]]}
                 if d0.get("k") == "bin" and d0.get("op") == "+" and X.strip(d0["ch"][1]).get("k") == "ref" and not X.strip(d0["ch"][1]).get("tp"):
                     copies.append((g, c, X.strip(d0["ch"][0]), X.strip(d0["ch"][1])))
                 elif g is f and any(y.get("k") == "ref" and y.get("d") == nb for y in walk(c["ch"][1])):
